@@ -14,6 +14,7 @@ mod d_dlint;
 mod d_embed;
 mod d_entry;
 mod d_fixb;
+mod d_fixsmall;
 mod d_limits;
 mod d_pipe;
 mod d_rx;
@@ -137,6 +138,7 @@ fn main() {
     "limits" => d_limits::run(&args),
     "fixb" => d_fixb::run(&args),
     "vms" => d_vms::run(&args),
+    "fixsmall" => d_fixsmall::run(&args),
     "txt" => d_txt::run(&args),
     "dlint" => d_dlint::run_all(&args),
     x => {
